@@ -141,6 +141,64 @@ def composite_certificate(row, tol, lam):
                                   glist(gpair(gZ(a), gN(b)) for a, b in evs), gZ(t_end))
 
 
+def swap_certificate(row, tol, lam):
+    """History of a live raw peer whose polling->websocket upgrade completes at row['cut'] as a run of
+    the composed system with a transport-swap step: per round SWake, [XSwap], XDeliver, CRearm,
+    XDeliverPong, STake; a ping written before the swap and seen after it waited in the polling
+    queue and was carried over.  lDown/lUp are the largest delays seen in this history; None when
+    they do not satisfy lDown + lUp + 2D < T (the theorem's hypothesis)."""
+    I, T = row["I"], row["T"]
+    pings, pongs = sorted(row["cli_pings"]), sorted(row["srv_pongs"])
+    n = min(len(pings), len(pongs))
+    cl = close_of(row["srv_close"])
+    if cl is not None and cl[1] != 0:
+        return None
+    start = min(row["open_srv"], row["open_cli"]) - lam
+    u = row["cut"]
+    evs, t, swapped, ld, lu = [], start, False, lam, 0
+    if row["when"] == "swap-nopoll":
+        evs.append((max(start, row["open_cli"]), 15))       # the NOOP the probe forces into the polling queue
+        t_last = evs[-1][0]
+    else:
+        t_last = start
+    for k in range(n):
+        p, d = pings[k], pongs[k]
+        lo, hi = t + I, t + I + tol
+        s = min(p, max(lo, min(hi, p - lam)))
+        if not swapped and u < s:
+            evs.append((max(u, t_last), 14))
+            swapped = True
+        evs.append((s, 0))
+        if not swapped and u <= p:
+            evs.append((max(u, s), 14))
+            swapped = True
+        q = max(s, d)
+        evs += [(p, 10), (p, 12), (d, 11), (q, 2)]
+        ld, lu = max(ld, p - s), max(lu, d - p)
+        t = t_last = q
+    t_end = min(row["end"], t + I)
+    if cl is not None:
+        # the server gave up on a ping: place its wake where the timeout says the timer was armed
+        lo, hi = t + I, t + I + tol
+        s = max(lo, min(hi, cl[0] - T))
+        if not swapped and u < s:
+            evs.append((max(u, t_last), 14))
+            swapped = True
+        evs.append((s, 0))
+        if not swapped:
+            evs.append((max(u, s), 14))
+            swapped = True
+        evs.append((cl[0], 3))
+        t_end = cl[0]
+    if not swapped and u <= t_end:
+        evs.append((max(u, t_last), 14))
+    ld, lu = ld + 5, lu + 5
+    if ld + lu + 2 * tol >= T:
+        return None
+    return "(%s : xcase)" % gpair(gZ(I), gZ(T), gZ(tol), gZ(ld), gZ(lu), gZ(start),
+                                  glist(gpair(gZ(a), gN(b)) for a, b in evs), gZ(t_end))
+
+
 def hcase_term(row, tol, start, evs, cl):
     return "(%s : hcase)" % gpair(gZ(row["I"]), gZ(row["T"]), gZ(tol), gbool(DRAIN), gZ(start),
                                   glist(gpair(gZ(t), gN(k)) for t, k in evs), gZ(row["end"]),
@@ -156,16 +214,22 @@ def build_terms(row, widen):
     """All kernel-evaluated cases of one scenario: list of (tag, fn, term)."""
     tol, lam = tolerances(row, widen)
     out = []
-    raw = row["peer"] == "raw"
+    raw = row["peer"] in ("raw", "rawup")
+    rawup = row["peer"] == "rawup"
     jitter = row["fault"] == "jitter"
     # --- correspondence
-    start, evs, cl = server_certificate(row, tol, lam, use_pings=not jitter)
+    start, evs, cl = server_certificate(row, tol, lam, use_pings=not jitter and not rawup)
     out.append(("agree:server", "agree_s", hcase_term(row, tol, start, evs, cl)))
     if not raw:
         start, evs, cl = client_certificate(row, tol, lam)
         out.append(("agree:client", "agree_c", hcase_term(row, tol, start, evs, cl)))
     # --- oracles
-    if row["fault"] == "none":
+    if rawup:
+        x = swap_certificate(row, tol, lam)
+        if x is not None:
+            out.append(("agree:composed", "agree_x", x))
+        out.append(("oracle:live-server", "oracle", ocase_term(2, row, tol, 0, close_of(row["srv_close"]))))
+    elif row["fault"] == "none":
         x = composite_certificate(row, tol, lam)
         if x is not None:
             out.append(("agree:composed", "agree_x", x))
